@@ -14,11 +14,15 @@
         business (replies of remote nodes, other traffic): a function parameter [refresh];
      4. if the bucket still is not full-and-clean the pass ends here ("as deep as we can go"), else on
         with bucket i+1.
-   The environment is a pair of parameters: [answers n] (does n answer a questionable-node ping) and
+   The environment is a pair of parameters: [answers n] (what becomes of a questionable-node ping to n) and
    [refresh i nodes] (the table after refreshBucket(i) returned).  Theorems quantify over both. *)
 From Coq Require Import List NArith ZArith Bool.
 From Dht Require Import Base Msg Server.
 Import ListNotations.
+
+(* what becomes of a questionable-node ping: no usable answer within 3 tries / an answer carrying the id the entry is
+   stored with / an answer carrying another id *)
+Inductive ping_outcome := PSilent | PSameId | POtherId.
 
 Section Maint.
   Variable id_secure : N -> bytes -> bool.
@@ -38,11 +42,17 @@ Section Maint.
   Definition ping_targets (now : Z) (nodes : list node) (i : nat) : list node :=
     filter (m_quest now) (bucket nodes i).
 
-  (* questionableNodePing: the outcome written back to the entry *)
-  Definition settle_ping (now : Z) (answers : node -> bool) (n : node) : node :=
-    if answers n then apply_update now UResponse n else apply_update now UFailedPing n.
+  (* questionableNodePing: the outcome written back to the entry.  A reply carrying ANOTHER id than the entry's (the
+     host came back under a new id) is credited by the packet path to the (address, id in the reply) entry; the ping
+     "succeeded", so this entry is not marked, and it has not answered either: it stays as it is. *)
+  Definition settle_ping (now : Z) (answers : node -> ping_outcome) (n : node) : node :=
+    match answers n with
+    | PSameId => apply_update now UResponse n
+    | POtherId => n
+    | PSilent => apply_update now UFailedPing n
+    end.
 
-  Definition after_pings (now : Z) (answers : node -> bool) (nodes : list node) (i : nat) : list node :=
+  Definition after_pings (now : Z) (answers : node -> ping_outcome) (nodes : list node) (i : nat) : list node :=
     map (fun n => if Nat.eqb (n_slot n) i && m_quest now n then settle_ping now answers n else n) nodes.
 
   (* Server.notBadNodes: the seeds handed to the refresh traversal *)
@@ -54,7 +64,7 @@ Section Maint.
   | PBreak (i : nat)                             (* the pass ends at bucket i *)
   | PDone.                                       (* all buckets visited *)
 
-  Fixpoint pass_from (fuel i : nat) (now : Z) (answers : node -> bool) (refresh : nat -> list node -> list node)
+  Fixpoint pass_from (fuel i : nat) (now : Z) (answers : node -> ping_outcome) (refresh : nat -> list node -> list node)
            (nodes : list node) : list phase * list node :=
     match fuel with
     | O => ([PDone], nodes)
